@@ -302,7 +302,9 @@ theorem processSel_error {rec : Cfg → St → Except Err (List Sel × St)} (hre
       rw [hnone] at this; cases this
     · split at h
       · rename_i e' he; cases h; exact hrec _ _ _ he
-      · cases h
+      · split at h
+        · cases h
+        · split at h <;> cases h
   | inline cond dirs sub =>
     simp only [processSel] at h
     split at h
